@@ -1,9 +1,30 @@
 package zzverif
 
 import (
+	"reflect"
 	"runtime"
 	"sync/atomic"
 )
 
+func reflectValueOf(f interface{}) reflect.Value { return reflect.ValueOf(f) }
+
+func funcNameOf(rv reflect.Value) string {
+	if !rv.IsValid() || rv.Kind() != reflect.Func || rv.IsNil() {
+		return ""
+	}
+	fn := runtime.FuncForPC(rv.Pointer())
+	if fn == nil {
+		return ""
+	}
+	return fn.Name()
+}
+
 func atomicAdd(p *uint32) uint32 { return atomic.AddUint32(p, 1) }
 func gosched()                   { runtime.Gosched() }
+
+// FuncName returns the fully qualified name of a Go function value
+// ("strings.ToUpper", "net/http.Get").
+func FuncName(f interface{}) string {
+	rv := reflectValueOf(f)
+	return funcNameOf(rv)
+}
